@@ -10,11 +10,11 @@ TB = ("Trusted: z3/cvc5; the pyvc encoding of the Python subset (typed heap, lis
 DED = ("contract-based deductive verification of the real source (pyvc: ast -> symbolic execution against sidecar contracts -> z3/cvc5), "
        "with the native bounded floor as labelled stand-in and replay")
 CLAIMS = {
- 'C01': ('other', "Deductive: the evaluator _process_step_expression is verified arm by arm against the spec function Sem (induction on expression rank) for transitive-free expressions - for records of the specification AND for faithful deep copies of them (what generation passes; stated over the ghost origin of the copy), "
+ 'C01': ('other', "Deductive: the inheritance fold _get_attacks_for_asset_type (which reaches expressions a step resolves to for a type); the evaluator _process_step_expression is verified arm by arm against the spec function Sem (induction on expression rank) for transitive-free expressions - for records of the specification AND for faithful deep copies of them (what generation passes; stated over the ghost origin of the copy), "
          "Model.get_associated_assets_by_field_name against field navigation on the model view (self-links, both orientations), is_subasset_of against the "
          "reflexive-transitive closure incl. termination, _get_variable_for_asset_type_by_name against the nearest declaration up the inheritance chain of the specification (raises iff none). Bounded: the transitive arm, the linking loop of _generate_graph and termination on cyclic models are decided by the floor "
          "(languages <=3 types, expression depth <=3, models <=3 assets incl. cycles and self-links).", '4 C01'),
- 'C02': ('other', "Deductive: add_node (id assignment, duplicate-id rejection, both indexes), full_name, the lookups and lemma LOOKUP (a lookup returns exactly the member with that key). "
+ 'C02': ('other', "Deductive: the inheritance fold _get_attacks_for_asset_type (each exposed step is a copy of the declaration the property names: type, TTC, tags, meta of the nearest '->' / first declaration); add_node (id assignment, duplicate-id rejection, both indexes), full_name, the lookups and lemma LOOKUP (a lookup returns exactly the member with that key). "
          "Bounded: the node loop of _generate_graph (one node per asset x step, attributes, existence status) is decided by the floor.", '4 C02'),
  'C03': ('other', "Deductive: _get_attacks_for_asset_type is verified against the fold of the property statement - the result has exactly the step names the type declares or inherits, every entry is "
          "a copy of its base declaration (nearest '->' redefinition on the way up, else the top-most declaration), its expression list is the inherited sequence, replaced by '->', extended by '+>' "
@@ -37,7 +37,7 @@ CLAIMS = {
          "inside a field and no (left, right) pair is already linked by an association of the same class (association_exists_between_assets inspects EVERY association of that class); "
          "add_association raises iff not valid and leaves the model unchanged then; 'no pair of assets is linked twice by associations of one class' and 'no asset repeats inside a field' are clauses of the representation invariant wf_model (M6, M3) that every mutator preserves. Bounded: the association schemas (_generate_associations uses nested closures: outside the verified subset), the classes generated from the schema, type / multiplicity / range rejections, which are "
          "enforced by python_jsonschema_objects (assumed third party): all languages of a 2-type family + random 3-type languages.", '4 C06'),
- 'C07': ('other', "Deductive (save side): Model._to_dict yields metadata, one entry per asset keyed by its id (name, type; asset_to_dict), one list element per association in order "
+ 'C07': ('other', "Deductive (load side, partial): add_asset, add_association (+ validation), add_attacker - the mutators the (assumed) _from_dict rebuilds a model with - have exact effects. Deductive (save side): Model._to_dict yields metadata, one entry per asset keyed by its id (name, type; asset_to_dict), one list element per association in order "
          "(association_to_dict: class name -> {left field: ids, right field: ids} in field order, extras copied) and one entry per attacker keyed by its id (attacker_to_dict: name, "
          "entry_points {asset id: {'attack_steps': the step list}}) - under the precondition that attacker ids are pairwise different (the known finding is a model violating it); "
          "get_asset_by_id (used by _from_dict to resolve ids); the file layer's dispatch: save_dict_to_file / Model.save_to_file write the document under the name in the format of the extension (.yml/.yaml -> YAML, .json -> JSON, else ValueError and nothing written), Model.load_from_file reads with the loader of the extension and returns what _from_dict makes of the written document (lemma FILE-RT: same name => same format) - over a ghost file system, with ASSUMED contracts for the four json / yaml wrappers and an abstract one for _from_dict. The defense values (get_asset_defenses: python_jsonschema_objects internals) are assumed. "
@@ -46,8 +46,8 @@ CLAIMS = {
          "sidecar contracts whose top-level post is the property: no equation violated, base nodes carry their status, every solution lies below the computed labelling (greatest fixed point), "
          "hence order independence. The floor (all graphs <=2 nodes + random) replays counterexamples.", '4 C08, A.4'),
  'C09': ('other', "Deductive: add_node, remove_node, add_attacker, remove_attacker, compromise/undo (+ lemma COMP-WF), prune, the lookups preserve wf_graph (W0..W5) and have exact effects; "
-         "raising calls leave the observable state unchanged. Bounded: regenerate_graph, attach_attackers, deepcopy, save/load inside histories (all histories <=3 operations on graphs <=3 nodes).", '4 C09, A.5'),
- 'C10': ('other', "Deductive: AttackGraphNode.to_dict, Attacker.to_dict and AttackGraph._to_dict are verified against the dict encoding (typed fields, tags as a fresh list of str, id -> full-name maps, "
+         "raising calls leave the observable state unchanged. regenerate_graph establishes the precondition of (abstract) generation: the state of a fresh empty graph, as __init__ does. Bounded: what generation then does (regenerate = fresh), attach_attackers, deepcopy, save/load inside histories (all histories <=3 operations on graphs <=3 nodes).", '4 C09, A.5'),
+ 'C10': ('other', "Deductive: add_node and add_attacker - the two mutators the (assumed) _from_dict rebuilds a graph with - have exact effects (ids honoured, reached steps = exactly the listed ones); AttackGraphNode.to_dict, Attacker.to_dict and AttackGraph._to_dict are verified against the dict encoding (typed fields, tags as a fresh list of str, id -> full-name maps, "
          "one collision-free entry per node / attacker). AttackGraph.save_to_file / load_from_file dispatch on the extension like the model's (ghost file system, assumed json / yaml wrappers, abstract _from_dict; lemma FILE-RT). Bounded: _from_dict and the real files by the floor: graphs <=4 nodes x {json, yml, dict} x {model, no model}.", '4 C10'),
  'C11': ('other', "Deductive: Attacker.compromise / undo_compromise and the node-side delegates (exact delta, idempotence), lemma COMP-WF, remove_attacker (no node stays compromised), add_attacker. "
          "Bounded: attach_attackers (contract in progress) by the floor: 2 attackers x 3 nodes, sequences <=5, 6342 attach scenarios.", '4 C11'),
